@@ -93,6 +93,49 @@ def mc_dd_part(chk, w, tier):
     chk.add_mc("MC_DD.cfg", r, constants=f"Widths = {{1,2,3}} Cuts = {{lel, fc}}; {len(insts)} generated instances (n <= 4, <= 4 base states / capacity <= 9), every reachable exact root, 3 types, 4 incumbents")
 
 
+def dd_model_conformance(chk, w, tier):
+    """spec -> impl for the diagram model: TLC enumerates every (input, outcome) pair of DD.tla (all tie-breaks); the real Mdd<LEL>/Mdd<FRONTIER>
+    compile the same inputs; each real outcome must be among the model's outcomes for that input. A mismatch is a divergence between model
+    and code (reported, counted) -- the verdicts of C06-C08 come from the contract, which both must satisfy."""
+    import re as _re
+    f = os.path.join(w, "mc_dd_insts.json")
+    insts = json.load(open(f))[:4 if tier == "quick" else 12]
+    f2 = os.path.join(w, "mc_dd_emit_insts.json")
+    json.dump(insts, open(f2, "w"))
+    r = tlc("DD", "MC_DD_emit.cfg", env={"INSTS": f2}, workers=4, timeout=3600, heap="6g")
+    if "No error has been found" not in r["out"]:
+        log(r["out"][-2000:])
+        raise ToolError("MC_DD_emit failed")
+    outs = [json.loads(bytes(x, "utf-8").decode("unicode_escape")) for x in _re.findall(r'<<"OUT", "(.*)">>', r["out"])]
+    by = {}
+    for o in outs:
+        key = json.dumps([o["ii"], o["cut"], o["type"], o["width"], o["lb"], o["root"]], sort_keys=True)
+        by.setdefault(key, []).append(json.dumps({"exact": o["exact"], "bv": o["bv"], "bev": o["bev"], "cs": sorted(o["cs"], key=json.dumps)}, sort_keys=True))
+    keys = sorted(by)
+    inputs = []
+    for k in keys:
+        ii, cut, ty, width, lb, root = json.loads(k)
+        inputs.append({"inst": insts[ii - 1], "cut": cut, "type": ty, "width": width, "lb": lb, "root": root})
+    fi, fo = os.path.join(w, "dd_inputs.json"), os.path.join(w, "dd_outcomes.json")
+    json.dump(inputs, open(fi, "w"))
+    run_bin("dd", ["--inputs", fi, "--out", fo])
+    real = json.load(open(fo))
+    match, miss = 0, []
+    for k, o in zip(keys, real):
+        o2 = json.dumps({"exact": o["exact"], "bv": o["bv"], "bev": o["bev"], "cs": sorted([{"x": c["x"], "depth": c["depth"], "value": c["value"], "ub": c["ub"]} for c in o["cs"]], key=json.dumps)}, sort_keys=True)
+        if o2 in by[k]:
+            match += 1
+        else:
+            miss.append({"input": json.loads(k), "real": json.loads(o2), "model": [json.loads(x) for x in by[k]][:3]})
+    chk.cov["dd_model_inputs_replayed_on_real_compilers"] = len(keys)
+    chk.cov["dd_model_outcome_sets_containing_the_real_outcome"] = match
+    chk.cov["dd_model_mismatches"] = miss[:5]
+    chk.cov["divergences"] += len(miss)
+    for m in miss[:3]:
+        log(f"  divergence (no verdict): real compiler outcome not among DD.tla's outcomes: {json.dumps(m)[:700]}")
+    chk.add_mc("MC_DD_emit.cfg", r, constants=f"Widths = {{1,2}} Cuts = {{lel, fc}}; {len(insts)} instances; {len(outs)} (input, outcome) pairs emitted")
+
+
 def make(pid, fams):
     def f(tier, replay):
         chk = Check(pid, tier)
@@ -112,6 +155,8 @@ def make(pid, fams):
             chk.cov.update({"evaluations": 400, "distinct_nontrivial": 2, "samples": [evs[1]]})
             return chk.finish()
         mc_dd_part(chk, w, tier)
+        if pid == "C06":
+            dd_model_conformance(chk, w, tier)
         dd_runs(chk, w, tier, fams)
         evs = read_ndjson(os.path.join(w, f"dd_{fams[0]}_0.ndjson"))
         k = next(i for i, e in enumerate(evs) if e["ev"] == "compiled" and e.get("ok") and not e["exact"])
